@@ -90,6 +90,7 @@ def replay_chunk(ctx, texts):
         cfgs = {"A": s["cfgA"], "B": s["cfgB"]}
         saved = AbstractContract.now
         bad = None
+        bad_roll = None
         try:
             ws = {k: replay_envfull.World(ctx["model"], cfgs[k], "simple") for k in "AB"}
             pos = {"A": 0, "B": 0}
@@ -100,12 +101,12 @@ def replay_chunk(ctx, texts):
                 o, v = _call(ws[who], rec)
                 got[who].append(_outputs(ws[who], rec["call"], o, v))
                 out["ops"] += 1
-                if bad is None and o == "ok" and rec["call"] == "step" and rec["out"] == "ok" and isinstance(rec.get("pos"), dict):
+                if bad_roll is None and o == "ok" and rec["call"] == "step" and rec["out"] == "ok" and isinstance(rec.get("pos"), dict):
                     from .impl import frac, close
                     p_now = ws[who].pos()
                     wrong = [n for n in p_now if not close(p_now[n], frac(rec["pos"][n]))]
                     if wrong:
-                        bad = ("pair_roll", "environment %s (schedule %s, its own clock at %s): positions %s, by its own clock the "
+                        bad_roll = ("pair_roll", "environment %s (schedule %s, its own clock at %s): positions %s, by its own clock the "
                                "specification gives %s" % (who, "".join(sched), ws[who].env.now(), p_now,
                                                            {n: str(frac(v)) for n, v in rec["pos"].items()}))
             for who in "AB":
@@ -153,7 +154,8 @@ def replay_chunk(ctx, texts):
         if out["sample"] is None:
             out["sample"] = {"schedule": k, "A": [(r["call"], r["target"]) for r in hists["A"]],
                              "B": [(r["call"], r["target"]) for r in hists["B"]]}
-        if bad and len(out["fails"]) < 30:
+        for bad in [b for b in (bad, bad_roll) if b]:
+          if len(out["fails"]) < 30:
             out["fails"].append({"clause": bad[0], "key": "%s/%s" % (bad[0], "chain"), "detail": bad[1],
                                  "case": {"kind": "pair", "schedule": k, "A": hists["A"], "B": hists["B"],
                                           "lat": cfgs["A"]["lat"], "delayA": cfgs["A"]["delay"], "delayB": cfgs["B"]["delay"]}})
